@@ -197,6 +197,38 @@ func mutateImports(r *rand.Rand, name string, src []byte, universe []string, bin
 			unneeded = append(unneeded, i)
 		}
 	}
+	// declarations that reuse the name of a needed import without shadowing it at package level
+	// (a method, a struct field, a local variable / label / parameter inside a new function):
+	// the import section is left alone and must survive
+	if r.IntN(8) == 0 {
+		if len(needed) == 0 {
+			return mutResult{}, false
+		}
+		n := bindName(specs[needed[r.IntN(len(needed))]])
+		uniq := fmt.Sprintf("verifT%d", r.IntN(1_000_000))
+		var decl string
+		switch r.IntN(5) {
+		case 0:
+			decl = fmt.Sprintf("\n\ntype %s struct{}\n\nfunc (%s) %s() {}\n", uniq, uniq, n)
+		case 1:
+			decl = fmt.Sprintf("\n\ntype %s struct{ %s int }\n", uniq, n)
+		case 2:
+			decl = fmt.Sprintf("\n\nfunc f%s() int {\n\t%s := 1\n\treturn %s\n}\n", uniq, n, n)
+		case 3:
+			decl = fmt.Sprintf("\n\nfunc f%s(%s int) int { return %s }\n", uniq, n, n)
+		default:
+			decl = fmt.Sprintf("\n\ntype %s interface{ %s() }\n", uniq, n)
+		}
+		pos := len(src)
+		if r.IntN(2) == 0 { // before the first use: right after the import section
+			pos = end
+		}
+		res := append(append(append([]byte(nil), src[:pos]...), decl...), src[pos:]...)
+		if _, err := parser.ParseFile(token.NewFileSet(), name, res, parser.ParseComments|parser.AllErrors); err != nil {
+			return mutResult{}, false
+		}
+		return mutResult{res, "decl-named-like-import"}, true
+	}
 	body := src
 	kinds := []string{"remove-needed", "add-unused", "reorder", "regroup", "alias-consistent", "alias-dangling", "alias-same", "dot-add", "dot-convert", "blank-add", "blank-convert", "blank-plus-plain", "duplicate", "remove-all", "add-needed-twice-paths"}
 	kind := kinds[r.IntN(len(kinds))]
